@@ -22,6 +22,7 @@ func init() {
 			"Does not decide: exact de-interleaving, sample values of filler, group alignment as a numeric fact, per-block (rather than cumulative) equality of reported and filled frames.",
 		RuleDocs: []string{
 			"C03.R1 FRAME rule: stamped frame = counter (+ block-local term), counter advance minus stamp offset = block length, once per block; for this source the stamp offset is zero (lost frames are filled in, so blocks are numbered contiguously); the counter may be read and advanced by a helper (polynomials translated to the caller)",
+			"C03.R3 (sampling) every method of the group that empties the packet queue and stores lastSN passes that store on every successful return",
 			"C03.R2 one length value for all channel buffers; window arithmetic of the per-group demultiplexing (E3)",
 			"C03.R3 guard dominance (E6) on the seed of the expected sequence number; loop shape of the queue walk",
 			"C03.R4 dominance order of the per-group calls inside the tick",
